@@ -28,6 +28,11 @@ def handle (line : String) : String :=
           | (true, none) => "true"
           | (false, _) => "false")
         (liteAuthenticate C3 idm pw rc r1 r2)
+    | "lite.protect", [i, p], _ =>
+      match parseHex i, (if p = "None" then some none else (parseHex p).map some) with
+      | some idm, some pw =>
+        showPy (fun (r : Option Bytes) => match r with | none => "none" | some c => toHex c) (liteProtectKeyWrite idm pw)
+      | _, _ => "bad-op"
     | "lite.rwmcmd", _, some [idm, blocks] => showPy toHex (readCmd idm (blocks ++ [0x81]))
     | "lite.rwm", _, some [idm, sk, iv, blocks, rsp] =>
       showPy (fun (r : Option Bytes) => match r with | none => "none" | some d => toHex d)
